@@ -97,6 +97,10 @@ def gen_concat(rng):
                 merged.append(g.pop(0))
             if merged != sorted(merged):
                 head = ('l', merged)
+    if total >= 2 and rng.random() < 0.05:
+        # a negative entry that is not the first one of the sequence (negative entries are refused wherever they stand)
+        k = rng.randint(1, min(3, total - 1))
+        head = ('l', sorted(rng.sample(range(total), k)) + [-rng.randint(1, total)])
     tails = []
     for n in tail:
         ix = gen_stage2(rng, n, True)
